@@ -4,7 +4,8 @@ check of its property (and of the extra properties given as PID:EXTRA,...) again
 scratch directory, and record exit code and the obligations that reported a violation in /verif/seeded/_incoming/<id>/detect.json."""
 import glob, json, os, re, subprocess, sys, time
 
-WT = "/tmp/wt_detect"
+INC = os.environ.get("SEED_INCOMING", "_incoming")
+WT = "/tmp/wt_detect" + ("2" if INC != "_incoming" else "")
 OUT = "/tmp/detect_out"
 EXTRA = {"C19": ["C09", "C05"], "C10": ["C15", "C08", "C09"], "C15": ["C08"], "C18": ["C05"], "C05": ["C19"]}
 
@@ -31,7 +32,7 @@ def main():
     sh(f"git -C /repo worktree remove --force {WT}")
     sh(f"git -C /repo worktree add --detach {WT} HEAD")
     head = sh("git -C /repo log --format=%h -1")[1].strip()
-    for d in sorted(glob.glob("/verif/seeded/_incoming/C*")):
+    for d in sorted(glob.glob(f"/verif/seeded/{INC}/C*")):
         pid = os.path.basename(d)
         if only and pid not in only:
             continue
